@@ -169,7 +169,10 @@ func RunAddr(t *testing.T, p *plan.Plan, keepLog int) *Result {
 						kind = "udp"
 					}
 					spec := plan.UpstreamSpec{Tag: fmt.Sprintf("a%d", i), Addr: e.url, DialAddr: e.dialAddr, Kind: kind, Host: e.srvHost, Port: e.srvPort, TLS: "good", UseCA: true}
-					srv := peers.NewUpServer(s, w, p.Seed, spec, map[string]*plan.TokenSpec{}, pki)
+					tcTok := fmt.Sprintf("tc%d", i)
+					srv := peers.NewUpServer(s, w, p.Seed, spec, map[string]*plan.TokenSpec{
+						tcTok: {Ans: plan.AnswerSpec{NAn: 1, TTLs: []uint32{60}, Shape: "plain"}, Acts: []plan.UpAction{{Kind: "truncate_udp", DelayUs: 200}}},
+					}, pki)
 					if err := srv.Start(); err != nil {
 						s.Fail("C17", "harness", "cannot start fake server for case %+v: %v", c, err)
 						continue
@@ -216,6 +219,41 @@ func RunAddr(t *testing.T, p *plan.Plan, keepLog int) *Result {
 					}
 					if xerr != nil {
 						s.Fail("C17", "exchange-failed", "%s: exchange failed against a server at %s %s presenting a valid certificate: %v", name, e.network, e.target, xerr)
+					}
+					if kind == "udp" && xerr == nil {
+						// second exchange: the UDP reply is truncated, the TCP
+						// leg has to go to the same place
+						mu.Lock()
+						dials = dials[:0]
+						mu.Unlock()
+						ctx, cancel := context.WithTimeout(context.Background(), 3*time.Second)
+						m, xerr2 := u.ExchangeContext(ctx, xQuery(&plan.XCall{Idx: i, Token: tcTok, ID: uint16(i + 7), Type: 1}))
+						cancel()
+						if m != nil {
+							dnsmsg.ReleaseMsg(m)
+						}
+						mu.Lock()
+						ds2 := append([]dialRec(nil), dials...)
+						mu.Unlock()
+						s.Probe("c17a_tcp_leg_checked")
+						tcpDials := 0
+						for _, d := range ds2 {
+							got := d.Resolved
+							if d.Network == "unix" {
+								got = d.Address
+							}
+							if strings.HasPrefix(d.Network, "tcp") || d.Network == "unix" {
+								tcpDials++
+							}
+							if got != e.target {
+								s.Fail("C17", "dial-target", "%s: the TCP leg after a truncated UDP reply dialled %s %q (resolved %q), want %s", name, d.Network, d.Address, d.Resolved, e.target)
+							}
+						}
+						if xerr2 != nil {
+							s.Fail("C17", "exchange-failed", "%s: exchange with a truncated UDP reply failed although the TCP server at %s answers: %v", name, e.target, xerr2)
+						} else if tcpDials == 0 {
+							s.Fail("C17", "no-dial", "%s: truncated UDP reply, but no stream connection was dialled", name)
+						}
 					}
 					for _, q := range srv.QueriesCopy() {
 						switch kind {
